@@ -15,7 +15,9 @@
    bits in the two builds), so the squared term is [sq_term p]: the oracle
    ([libm2 FN_POWF]) under Debug, [fmul x x] under Release.  Nothing else here
    depends on the profile (`i as i32`, `as u32` are wrapping casts; checked_pow
-   never panics). *)
+   never panics).  Not modelled: the allocation `vec![0; ndim]` (capacity
+   overflow panic / allocation failure for an operand-sized ndim) — that is
+   DESIGN.md section 7 #27 (C15), not C20. *)
 From Coq Require Import ZArith List Bool Lia.
 From PushModel Require Import Base.Sx Base.Machine Base.F32.
 Import ListNotations.
